@@ -3,6 +3,7 @@ import rules_sched as S
 import rules_term as T
 import rules_build as B
 import rules_run as R
+import rules_state as ST
 
 K01 = ("K0", "K1")
 TRUST = [
@@ -28,7 +29,7 @@ prop("C02",
      [("S1", S.S1, K01, {}), ("S2", S.S2, K01, {}), ("S3", S.S3, K01, {}), ("S4", S.S4, K01, {}), ("S5", S.S5, K01, {}),
       ("L2", lambda ctx: __import__("rules_run").L2(ctx), K01, {}),
       ("B1", S.opts_frame, K01, {"fields": ("StreamOrder",)}), ("B2", S.order_wiring, K01, {}),
-      ("R3", B.R3, ("K0",), {"parts": ("structures", "counts")}), ("E", B.C16_rules, ("K0",), {}), ("ID", B.ID_rules, ("K0",), {})],
+      ("R3", B.R3, ("K0",), {"parts": ("structures", "counts")}), ("E", B.C16_rules, ("K0",), {}), ("ID", B.ID_rules, ("K0",), {}), ("Q6", R.clone_frame, ("K0",), {})],
      K01,
      "Decides the scheduler premises S1-S5 (and L2: each fold step returns its state only after the user future's Ready arm) on the MIR of every streaming path: counts/structure pairing chain "
      "(in-degree with forward structure, out-degree with reversed structure, build() orientation, StreamOpts::rev/default), "
@@ -53,7 +54,7 @@ prop("C03",
 
 prop("C04",
      [("T1", T.T1, K01, {}), ("T2", T.T2, K01, {}), ("T3", T.T3, K01, {"want_stream": False}),
-      ("S6", S.S6, K01, {}), ("S7", S.S7, K01, {}), ("S1", S.S1, K01, {}), ("T4", T.T4, ("K1",), {}), ("A1", T.A1, K01, {}), ("A2", R.A2, K01, {}),
+      ("S6", S.S6, K01, {}), ("S7", S.S7, K01, {}), ("S1", S.S1, K01, {}), ("T4", T.T4, ("K1",), {}), ("A1", T.A1, K01, {}), ("A2", R.A2, K01, {}), ("S4", S.S4, K01, {}), ("S6b", S.S6b_bitsets, K01, {}),
       ("S2", S.S2, K01, {}), ("S3", S.S3, K01, {}), ("IM", S.S5_interrupt_map, ("K1",), {"rule": "IM"}),
       ("R3", B.R3, ("K0",), {"parts": ("structures", "counts")}), ("R4", B.R4, ("K0",), {})],
      K01,
@@ -101,7 +102,7 @@ prop("C06",
       ("S6", S.S6, K01, {"roles_filter": ("READY", "DONE")}),
       ("W4", lambda ctx: __import__("rules_run").W4(ctx), K01, {}), ("S2", S.S2, K01, {}),
       ("R3", B.R3, K0, {"parts": ("structures", "counts")}), ("R4", B.R4, K0, {}), ("S1", S.S1, K01, {}),
-      ("T3", T.T3, K01, {"want_stream": True})],
+      ("T3", T.T3, K01, {"want_stream": True}), ("Q6", R.clone_frame, K0, {})],
      K01,
      "Decides W4 = L1 (limit forwarded unchanged, so None gates nothing), W1 (the only edge-adding call on the user's graph reachable from build() is update_edge with the constant Edge::Data, "
      "no other node/edge-set mutator), W2 (the comparison pairs feeding its guard contain no read x read pair and no same-function pair; "
@@ -172,7 +173,8 @@ prop("C18",
 prop("C07",
      [("F", R.F_rules, K01, {}), ("S6", S.S6, K01, {"roles_filter": ("RESULT",)}), ("T1", T.T1, K01, {"kinds": ("FAILED",)}),
       ("O4", R.O4, K01, {}), ("S7", S.S7, K01, {}),
-      ("B1", S.opts_frame, K01, {"fields": ("StreamOrder",)}), ("B2", S.order_wiring, K01, {})],
+      ("B1", S.opts_frame, K01, {"fields": ("StreamOrder",)}), ("B2", S.order_wiring, K01, {}),
+      ("R2", B.R2, ("K0",), {"strict_order": False}), ("R3", B.R3, ("K0",), {"parts": ("structures", "counts")})],
      K01,
      "Decides F1 (on the Err arm of the user future exactly one awaited send on the RESULT channel carries that error), F2 (from the Err arm every "
      "path to the done-send passes through the release of the done-sender), F3 (RESULT capacity monotone in node_count; its receiver is drained only "
@@ -184,7 +186,7 @@ prop("C07",
 
 prop("C08",
      [("I", R.I_rules, ("K1",), {}), ("S5", S.S5, ("K1",), {}), ("T1", T.T1, ("K1",), {"kinds": ("INTERRUPTED",)}), ("T4", T.T4, ("K1",), {}),
-      ("B1", S.opts_frame, ("K1",), {"fields": ("InterruptibilityState", "bool")}), ("S7", S.S7, ("K1",), {}), ("O3b", R.O3b, ("K1",), {})],
+      ("B1", S.opts_frame, ("K1",), {"fields": ("InterruptibilityState", "bool")}), ("S7", S.S7, ("K1",), {}), ("O3b", R.O3b, ("K1",), {}), ("O", R.O_rules, ("K1",), {})],
      ("K1",),
      "Decides the wiring only: I1 (opts.interruptibility_state and interrupted_next_item_include flow unchanged from each public parameter - or from "
      "StreamOpts::default() - to the ready-stream wrapper; stream_with_interruptible passes the state to interruptible_with, stream/stream_with do not wrap), "
@@ -216,7 +218,7 @@ prop("C10",
 
 prop("C14",
      [("Q", R.Q_rules, ("K0", "K4"), {}), ("R3", B.R3, ("K0", "K4"), {"parts": ("structures",)}), ("R4", B.R4, ("K0", "K4"), {}),
-      ("ID", B.ID_rules, ("K0", "K4"), {}), ("E", B.C16_rules, ("K0", "K4"), {})],
+      ("ID", B.ID_rules, ("K0", "K4"), {}), ("E", B.C16_rules, ("K0", "K4"), {}), ("N", ST.N_rules, ("K0",), {})],
      ("K0", "K4"),
      "Decides Q1 (each of iter, iter_rev, toposort, map, fold, try_fold, for_each, try_for_each creates and steps Topo with the same graph), Q2 (forward APIs walk a "
      "forward-role graph, iter_rev the reversed structure; roles from build()), Q3 (the id produced by Topo indexes self.graph unchanged), Q4 (try_fold/try_for_each return the "
@@ -235,7 +237,6 @@ prop("C17",
      "value-level round-trip equality through a concrete format (serde/daggy/serde_yaml_ng behaviour)")
 
 
-import rules_state as ST
 
 SERDE_DEP = 'serde = { version = "1", features = ["derive"] }'
 
